@@ -1038,7 +1038,11 @@ func (e *AnimEncoder) increasePreviousDuration(durMS int) error {
 	e.prevMuxIndex = e.muxer.NumFrames() - 1
 	e.frameCount++
 	e.countSinceKeyframe++
-	// prevCanvas and prevFrameRect remain unchanged since the canvas is identical.
+	// prevCanvas remains unchanged since the canvas is identical, but the
+	// previous frame is now the 1x1 filler: a later dispose-to-background
+	// decision applies to the filler's rectangle, not to the rectangle of the
+	// frame before it.
+	e.prevFrameRect = image.Rect(0, 0, 1, 1)
 	return nil
 }
 
